@@ -866,9 +866,18 @@ class Manager:
                 self.unregisterTask((event, task, parent))
                 if parent:
                     value = self._stepTask(event, parent.throw, value.extract())
-                    if value is not None:
-                        value_generator = (val for val in (value,))
-                        self.registerTask((event, value_generator, parent))
+                    # The caller has handled the TimeoutError and goes on:
+                    # treat what it yields exactly as after parent.send() above
+                    if isinstance(value, GeneratorType):
+                        task_state = self._stepTask(event, next, value)
+                        task_state.task_event = event
+                        task_state.task = value
+                        task_state.parent = parent
+                    else:
+                        event.waitingHandlers -= 1
+                        if value is not None:
+                            event.value.value = value
+                        self.registerTask((event, parent, None))
                 else:
                     raise value.extract()
             elif isinstance(value, Sleep):
